@@ -16,22 +16,100 @@ import (
 func init() { reg.Register("route.mount", runMount) }
 
 type mstmt struct {
-	Kind    string   `json:"kind"` // m use usenp all | mount | group
+	Kind    string   `json:"kind"` // m use usenp usemulti all | mount | group
 	Methods []string `json:"methods,omitempty"`
 	Path    string   `json:"path,omitempty"`
 	Hs      []hspec  `json:"hs,omitempty"`
 	Prefix  string   `json:"prefix,omitempty"`
 	Body    []mstmt  `json:"body,omitempty"`
 	Late    []mstmt  `json:"late,omitempty"` // mount: routes added to the sub-app after it was mounted
+	// usemulti: Use([]string{Prefixes...}, handlers...). Share > 0: the call is handed the slice
+	// variable number Share-1 of the program (the same variable as every other call naming it)
+	// instead of a slice literal of its own.
+	Prefixes []string `json:"prefixes,omitempty"`
+	Share    int      `json:"share,omitempty"`
+	// mount: routing options of the mounted app's own Config (nil = the root's)
+	Sub *subCfg `json:"sub_config,omitempty"`
+	// custom constraint carried by Path: parameter name and constraint name
+	ConsParam string `json:"cons_param,omitempty"`
+	ConsKind  string `json:"cons_kind,omitempty"`
+}
+
+type subCfg struct {
+	CaseSensitive bool `json:"case_sensitive"`
+	Strict        bool `json:"strict"`
 }
 
 type mprog struct {
-	Cfg  Cfg     `json:"cfg"`
-	Root []mstmt `json:"root"`
+	Cfg Cfg `json:"cfg"`
+	// Config.RequestMethods of every app of the program (nil = the default list)
+	Methods []string `json:"request_methods,omitempty"`
+	// Cons: where the custom constraints are registered in the composition under test:
+	// "" nowhere (no constrained routes), "sub" on every mounted app but not on the root (constrained
+	// routes live in mounted apps only), "all" on every app. The reference composition, which has
+	// only the root app, registers them on the root whenever Cons != "".
+	Cons string `json:"custom_constraints,omitempty"`
+	// Shared: prefix lists kept in one slice variable each and passed to several Use calls
+	Shared [][]string `json:"shared_prefix_lists,omitempty"`
+	Root   []mstmt    `json:"root"`
 }
 
 var mountPrefixes = []string{"/", "/api", "/api/", "/:v", "/a/b", "/Api", "/ab", "/abc", "/:Ver"}
-var mountPaths = []string{"/", "/a", "/ab", "/abc", "/x", "/:p", "/a/:p", "/*", "/abc/d", "/:p?", "/api", "/a/", "/:pId", "/a/:Key", `/a\:b`, `/x\*`, `/ab\+/:p`}
+var mountPaths = []string{"/", "/a", "/ab", "/abc", "/x", "/:p", "/a/:p", "/*", "/abc/d", "/:p?", "/api", "/a/", "/:pId", "/a/:Key", `/a\:b`, `/x\*`, `/ab\+/:p`, "/Ab", "/abc/", "/x/Y/"}
+
+// routes whose parameter carries a custom constraint (registered with RegisterCustomConstraint)
+var mountConsPaths = []struct{ Path, Param, Kind string }{
+	{"/:p<even>", "p", "even"}, {"/a/:p<even>", "p", "even"}, {"/:p<Upper>", "p", "Upper"}, {"/ab/:q<even>?", "q", "even"},
+}
+
+var extraMethods = []string{"PURGE", "LINK"}
+
+// newApp builds one app of a composition: cfg's routing options, the program's method list, and
+// the custom constraints when withCons.
+func (p *mprog) newApp(cfg Cfg, withCons bool) *fiber.App {
+	fc := cfg.FiberConfig()
+	if p.Methods != nil {
+		fc.RequestMethods = append([]string(nil), p.Methods...)
+	}
+	app := fiber.New(fc)
+	if cfg.CustomCtx {
+		app.NewCtxFunc(func(a *fiber.App) fiber.CustomCtx {
+			return &customCtx{DefaultCtx: *fiber.NewDefaultCtx(a)}
+		})
+	}
+	if withCons {
+		app.RegisterCustomConstraint(evenConstraint{})
+		app.RegisterCustomConstraint(upperConstraint{})
+	}
+	return app
+}
+
+// subApp builds a mounted app: the root's configuration except for the routing options the
+// mount statement sets for it.
+func (p *mprog) subApp(s *mstmt) *fiber.App {
+	cfg := p.Cfg
+	if s.Sub != nil {
+		cfg.CaseSensitive, cfg.Strict = s.Sub.CaseSensitive, s.Sub.Strict
+	}
+	return p.newApp(cfg, p.Cons != "")
+}
+
+// sharedLists instantiates the program's shared slice variables for one build.
+func (p *mprog) sharedLists() [][]string {
+	out := make([][]string, len(p.Shared))
+	for i, l := range p.Shared {
+		out[i] = append([]string(nil), l...)
+	}
+	return out
+}
+
+// methodPool: methods used by registrations and requests of the program.
+func (p *mprog) methodPool() []string {
+	if p.Methods == nil {
+		return []string{"GET", "POST"}
+	}
+	return append([]string{"GET", "POST"}, extraMethods...)
+}
 
 type mgen struct {
 	r      *gen.Rand
@@ -42,6 +120,13 @@ type mgen struct {
 	inSub  map[int]bool // handler ids living in a mounted app
 	// handler ids of prefix-less Use(h) calls made directly on a mounted app
 	subRootUse map[int]bool
+	prog       *mprog
+	// handler id -> {parameter, custom constraint} of its route
+	consOf map[int][2]string
+}
+
+func newMgen(r *gen.Rand, p *mprog, budget int) *mgen {
+	return &mgen{r: r, budget: budget, prog: p, inSub: map[int]bool{}, subRootUse: map[int]bool{}, consOf: map[int][2]string{}}
 }
 
 func (g *mgen) hs(inSub bool) []hspec {
@@ -66,25 +151,62 @@ func (g *mgen) hs(inSub bool) []hspec {
 	return out
 }
 
+var usePrefixPool = []string{"/", "/a", "/ab", "/api", "/:p", "/abc"}
+
 func (g *mgen) route(inSub bool) mstmt {
 	r := g.r
 	g.budget--
 	s := mstmt{}
-	switch r.PickW(50, 20, 15, 15) {
+	switch r.PickW(46, 18, 13, 15, 12) {
 	case 0:
 		s.Kind = "m"
-		s.Methods = []string{gen.Pick(r, []string{"GET", "POST"})}
+		pool := g.prog.methodPool()
+		s.Methods = []string{gen.Pick(r, pool)}
+		if r.Chance(1, 4) {
+			// Add with a method list
+			ms := append(append([]string(nil), pool...), "PUT")
+			gen.Shuffle(r, ms)
+			s.Methods = ms[:r.Range(2, 3)]
+		}
 		s.Path = gen.Pick(r, mountPaths)
 	case 1:
 		s.Kind = "use"
-		s.Path = gen.Pick(r, []string{"/", "/a", "/ab", "/api", "/:p", "/abc"})
+		s.Path = gen.Pick(r, usePrefixPool)
 	case 2:
 		s.Kind = "usenp"
 	case 3:
 		s.Kind = "all"
 		s.Path = gen.Pick(r, mountPaths)
+	case 4:
+		// Use([]string{…}, h): a slice literal, or a slice variable shared with other calls
+		s.Kind = "usemulti"
+		p := g.prog
+		if len(p.Shared) > 0 && r.Chance(2, 3) {
+			k := r.Intn(len(p.Shared))
+			s.Share = k + 1
+			s.Prefixes = append([]string(nil), p.Shared[k]...)
+		} else {
+			n := r.Range(1, 3)
+			for i := 0; i < n; i++ {
+				s.Prefixes = append(s.Prefixes, gen.Pick(r, usePrefixPool))
+			}
+			if r.Chance(2, 3) {
+				p.Shared = append(p.Shared, append([]string(nil), s.Prefixes...))
+				s.Share = len(p.Shared)
+			}
+		}
+	}
+	// a parameter with a custom constraint, where the composition registers the constraints
+	if (s.Kind == "m" || s.Kind == "all") && (g.prog.Cons == "all" || g.prog.Cons == "sub" && inSub) && r.Chance(1, 3) {
+		cp := gen.Pick(r, mountConsPaths)
+		s.Path, s.ConsParam, s.ConsKind = cp.Path, cp.Param, cp.Kind
 	}
 	s.Hs = g.hs(inSub)
+	if s.ConsKind != "" {
+		for _, h := range s.Hs {
+			g.consOf[h.ID] = [2]string{s.ConsParam, s.ConsKind}
+		}
+	}
 	if s.Kind == "usenp" && inSub {
 		for _, h := range s.Hs {
 			g.subRootUse[h.ID] = true
@@ -101,7 +223,7 @@ func (g *mgen) body(depth int, inSub bool) []mstmt {
 		switch {
 		case depth < 3 && g.mounts < 4 && r.Chance(1, 3):
 			g.mounts++
-			m := mstmt{Kind: "mount", Prefix: gen.Pick(r, mountPrefixes)}
+			m := mstmt{Kind: "mount", Prefix: gen.Pick(r, mountPrefixes), Sub: g.subCfg()}
 			m.Body = g.body(depth+1, true)
 			if r.Chance(1, 3) {
 				k := r.Range(1, 2)
@@ -119,6 +241,15 @@ func (g *mgen) body(depth int, inSub bool) []mstmt {
 		}
 	}
 	return out
+}
+
+// subCfg: half of the mounted apps are created with routing options of their own (a sub-app is a
+// fiber.New(...) of its own; the options of the app that serves the requests are the root's).
+func (g *mgen) subCfg() *subCfg {
+	if g.r.Bool() {
+		return nil
+	}
+	return &subCfg{CaseSensitive: g.r.Bool(), Strict: g.r.Bool()}
 }
 
 type mrec struct {
@@ -145,12 +276,20 @@ func mHandler(tr *mtrace, h hspec) fiber.Handler {
 	}
 }
 
-func mApplyRoute(rt fiber.Router, s *mstmt, tr *mtrace) {
+// mApplyRoute performs the statement's API call on rt. shared holds the build's slice variables
+// (nil: every Use([]string…) call gets a slice literal of its own).
+func mApplyRoute(rt fiber.Router, s *mstmt, tr *mtrace, shared [][]string) {
 	hs := make([]fiber.Handler, len(s.Hs))
 	for i, h := range s.Hs {
 		hs[i] = mHandler(tr, h)
 	}
 	switch s.Kind {
+	case "usemulti":
+		pf := append([]string(nil), s.Prefixes...)
+		if shared != nil && s.Share > 0 {
+			pf = shared[s.Share-1]
+		}
+		rt.Use(append([]any{pf}, anyHs(hs[0], hs[1:])...)...)
 	case "m":
 		rt.Add(s.Methods, s.Path, hs[0], hs[1:]...)
 	case "all":
@@ -164,6 +303,7 @@ func mApplyRoute(rt fiber.Router, s *mstmt, tr *mtrace) {
 
 // buildMounted: composition (A) — real sub-apps attached with Use(prefix, subApp).
 func buildMounted(p *mprog, tr *mtrace) *fiber.App {
+	shared := p.sharedLists()
 	var late []func()
 	var build func(rt fiber.Router, body []mstmt)
 	build = func(rt fiber.Router, body []mstmt) {
@@ -171,25 +311,25 @@ func buildMounted(p *mprog, tr *mtrace) *fiber.App {
 			s := &body[i]
 			switch s.Kind {
 			case "mount":
-				sub := p.Cfg.NewApp()
+				sub := p.subApp(s)
 				build(sub, s.Body)
 				rt.Use(s.Prefix, sub)
 				if len(s.Late) > 0 {
 					ls := s.Late
 					late = append(late, func() {
 						for j := range ls {
-							mApplyRoute(sub, &ls[j], tr)
+							mApplyRoute(sub, &ls[j], tr, shared)
 						}
 					})
 				}
 			case "group":
 				build(rt.Group(s.Prefix), s.Body)
 			default:
-				mApplyRoute(rt, s, tr)
+				mApplyRoute(rt, s, tr, shared)
 			}
 		}
 	}
-	app := p.Cfg.NewApp()
+	app := p.newApp(p.Cfg, p.Cons == "all")
 	build(app, p.Root)
 	for _, f := range late {
 		f()
@@ -209,16 +349,16 @@ func buildFlat(p *mprog, tr *mtrace) *fiber.App {
 				g := rt.Group(s.Prefix)
 				build(g, s.Body)
 				for j := range s.Late {
-					mApplyRoute(g, &s.Late[j], tr)
+					mApplyRoute(g, &s.Late[j], tr, nil)
 				}
 			case "group":
 				build(rt.Group(s.Prefix), s.Body)
 			default:
-				mApplyRoute(rt, s, tr)
+				mApplyRoute(rt, s, tr, nil)
 			}
 		}
 	}
-	app := p.Cfg.NewApp()
+	app := p.newApp(p.Cfg, p.Cons != "")
 	build(app, p.Root)
 	return app
 }
@@ -227,6 +367,7 @@ func buildFlat(p *mprog, tr *mtrace) *fiber.App {
 // Domain kept unambiguous: prefixes without trailing slash, paths starting with '/'.
 
 func buildGrouped(p *mprog, tr *mtrace) *fiber.App {
+	shared := p.sharedLists()
 	var build func(rt fiber.Router, body []mstmt)
 	build = func(rt fiber.Router, body []mstmt) {
 		for i := range body {
@@ -234,17 +375,17 @@ func buildGrouped(p *mprog, tr *mtrace) *fiber.App {
 			if s.Kind == "group" {
 				build(rt.Group(s.Prefix), s.Body)
 			} else {
-				mApplyRoute(rt, s, tr)
+				mApplyRoute(rt, s, tr, shared)
 			}
 		}
 	}
-	app := p.Cfg.NewApp()
+	app := p.newApp(p.Cfg, p.Cons != "")
 	build(app, p.Root)
 	return app
 }
 
 func buildSpelled(p *mprog, tr *mtrace) *fiber.App {
-	app := p.Cfg.NewApp()
+	app := p.newApp(p.Cfg, p.Cons != "")
 	var build func(prefix string, body []mstmt)
 	build = func(prefix string, body []mstmt) {
 		for i := range body {
@@ -259,10 +400,17 @@ func buildSpelled(p *mprog, tr *mtrace) *fiber.App {
 					s.Kind = "use"
 					s.Path = prefix
 				}
+			case "usemulti":
+				// a slice literal holding the full paths
+				full := make([]string, len(s.Prefixes))
+				for j, pf := range s.Prefixes {
+					full[j] = joinPrefix(prefix, pf)
+				}
+				s.Prefixes = full
 			default:
 				s.Path = joinPrefix(prefix, s.Path)
 			}
-			mApplyRoute(app, &s, tr)
+			mApplyRoute(app, &s, tr, nil)
 		}
 	}
 	build("", p.Root)
@@ -331,6 +479,9 @@ func mountShape(p *mprog) string {
 				if len(s.Late) > 0 {
 					kinds["late-routes"] = true
 				}
+				if s.Sub != nil && (s.Sub.CaseSensitive != p.Cfg.CaseSensitive || s.Sub.Strict != p.Cfg.Strict) {
+					kinds["sub-app-with-other-routing-options"] = true
+				}
 				walk(s.Body, depth+1)
 			} else if s.Kind == "group" {
 				walk(s.Body, depth)
@@ -346,7 +497,6 @@ func mountShape(p *mprog) string {
 	return strings.Join(ks, "+")
 }
 
-
 // checkMounted builds both compositions of p and compares them on the requests.
 func checkMounted(e *ev.Env, c *ev.Case, p *mprog, g *mgen, reqs [][2]string) {
 	trA, trB := &mtrace{}, &mtrace{}
@@ -356,6 +506,20 @@ func checkMounted(e *ev.Env, c *ev.Case, p *mprog, g *mgen, reqs [][2]string) {
 	}
 	if e.Guard(c, "mount|build-flat", p, func() { dB = drive.NewDirect(buildFlat(p, trB)) }) {
 		return
+	}
+	// Programs whose custom constraints are registered on the mounted apps only get a third
+	// composition: the same mounted tree with the constraints registered on the root as well. It
+	// never decides whether a request is a violation; it only names the input class of a
+	// difference between (A) and (B): the mounted tree answers this request differently once the
+	// root knows the constraints too, i.e. the constraints of the mounted apps were not in force.
+	trC := &mtrace{}
+	var dC *drive.Direct
+	if p.Cons == "sub" {
+		pc := *p
+		pc.Cons = "all"
+		if e.Guard(c, "mount|build-mounted", &pc, func() { dC = drive.NewDirect(buildMounted(&pc, trC)) }) {
+			return
+		}
 	}
 	shape := mountShape(p)
 	for _, rq := range reqs {
@@ -377,13 +541,35 @@ func checkMounted(e *ev.Env, c *ev.Case, p *mprog, g *mgen, reqs [][2]string) {
 				"mounted": map[string]any{"trace": trA.recs, "status": ra.Status, "body": string(ra.Body)},
 				"grouped": map[string]any{"trace": trB.recs, "status": rb.Status, "body": string(rb.Body)}}
 		}
+		consLost := func(what string) bool {
+			if dC == nil {
+				return false
+			}
+			trC.recs = nil
+			var rc *drive.Resp
+			if e.Guard(c, "mount|dispatch-mounted", map[string]any{"program": p, "method": m, "path": path, "constraints_on_root_too": true}, func() { rc = do(dC, m, path) }) {
+				return false
+			}
+			// same mounted tree, same request: only the root's knowledge of the constraints differs
+			if ok, _ := recsEqual(trC.recs, trA.recs); ok && rc.Status == ra.Status && string(rc.Body) == string(ra.Body) {
+				return false
+			}
+			d := detail()
+			d["mounted_with_constraints_registered_on_root_too"] = map[string]any{"trace": trC.recs, "status": rc.Status, "body": string(rc.Body)}
+			e.Violation(c, "mount|custom-constraint-of-sub-app-not-enforced",
+				fmt.Sprintf("%s %s: mounted composition and Group(prefix) composition differ in %s; custom constraints are registered on the mounted apps (not on the root), and the mounted composition answers differently once the root registers them too", m, path, what), d)
+			return true
+		}
 		if ok, what := recsEqual(trA.recs, trB.recs); !ok {
+			// first handler on which the two traces part
+			i := 0
+			for i < len(trA.recs) && i < len(trB.recs) && trA.recs[i].ID == trB.recs[i].ID {
+				i++
+			}
+			if consLost(what) {
+				continue
+			}
 			if what == "trace" && p.Cfg.Strict {
-				// first handler on which the two traces part
-				i := 0
-				for i < len(trA.recs) && i < len(trB.recs) && trA.recs[i].ID == trB.recs[i].ID {
-					i++
-				}
 				if i < len(trB.recs) && g.subRootUse[trB.recs[i].ID] {
 					e.Violation(c, "mount|strict-routing|prefixless-use-of-mounted-app-requires-slash-after-mount-path",
 						fmt.Sprintf("StrictRouting: %s %s skips the mounted app's Use(h) middleware h%d, which Group(prefix).Use(h) runs", m, path, trB.recs[i].ID), detail())
@@ -395,15 +581,77 @@ func checkMounted(e *ev.Env, c *ev.Case, p *mprog, g *mgen, reqs [][2]string) {
 			continue
 		}
 		if ra.Status != rb.Status || string(ra.Body) != string(rb.Body) {
+			if consLost("response") {
+				continue
+			}
 			e.Violation(c, "mount|response-differs|"+shape,
 				fmt.Sprintf("%s %s: mounted composition answers %d %q, Group(prefix) composition %d %q", m, path, ra.Status, ra.Body, rb.Status, rb.Body), detail())
 		}
 	}
 }
 
+// genProgOptions draws the program-wide options: the configured method list and where custom
+// constraints are registered.
+func genProgOptions(r *gen.Rand, p *mprog, mounts bool) {
+	if r.Chance(1, 3) {
+		p.Methods = append(append([]string(nil), fiber.DefaultMethods...), extraMethods...)
+	}
+	switch r.PickW(60, 20, 20) {
+	case 1:
+		p.Cons = "all"
+	case 2:
+		if mounts {
+			p.Cons = "sub"
+		} else {
+			p.Cons = "all"
+		}
+	}
+}
+
+func isExtraMethod(m string) bool {
+	for _, x := range extraMethods {
+		if x == m {
+			return true
+		}
+	}
+	return false
+}
+
+func genReqMethod(r *gen.Rand, p *mprog) string {
+	if p.Methods != nil && r.Chance(1, 3) {
+		return gen.Pick(r, extraMethods)
+	}
+	return gen.Pick(r, []string{"GET", "POST", "GET", "PUT"})
+}
+
+// groupsClass: input class of a groups-vs-full-paths program for signatures.
+func groupsClass(p *mprog) string {
+	uses := map[int]int{}
+	var walk func(b []mstmt)
+	walk = func(b []mstmt) {
+		for _, s := range b {
+			if s.Kind == "usemulti" && s.Share > 0 {
+				uses[s.Share]++
+			}
+			walk(s.Body)
+		}
+	}
+	walk(p.Root)
+	class := "fresh-arguments"
+	for _, n := range uses {
+		if n > 1 {
+			class = "prefix-slice-variable-passed-to-several-use-calls"
+		}
+	}
+	if p.Methods != nil {
+		class += "+custom-request-methods"
+	}
+	return class
+}
+
 // regUnit marks handler ids for the corpus programs.
 func corpusGen(sub []int, rootUse []int) *mgen {
-	g := &mgen{inSub: map[int]bool{}, subRootUse: map[int]bool{}}
+	g := newMgen(nil, nil, 0)
 	for _, i := range sub {
 		g.inSub[i] = true
 	}
@@ -440,19 +688,26 @@ func runMount(e *ev.Env) {
 			{Kind: "usenp", Hs: []hspec{{ID: 0, Eff: effStop}}}}}}}
 		checkMounted(e, c, p, corpusGen([]int{0}, []int{0}), [][2]string{{"GET", "/a/b"}, {"GET", "/a/b/"}, {"GET", "/a/b/x"}, {"GET", "/a/bx"}})
 	})
+	e.Corpus("sub-app-custom-constraint", func(c *ev.Case) {
+		// sub := fiber.New(); sub.RegisterCustomConstraint(even); sub.Get("/:p<even>", h0); app.Use("/ab", sub)
+		p := &mprog{Cfg: Cfg{}, Cons: "sub", Root: []mstmt{{Kind: "mount", Prefix: "/ab", Body: []mstmt{
+			{Kind: "m", Methods: []string{"GET"}, Path: "/:p<even>", Hs: []hspec{{ID: 0, Eff: effStop}}, ConsParam: "p", ConsKind: "even"}}}}}
+		checkMounted(e, c, p, corpusGen([]int{0}, nil), [][2]string{{"GET", "/ab/xy"}, {"GET", "/ab/xyz"}, {"POST", "/ab/xyz"}})
+	})
 
 	e.Cases("trees", e.N(3000, 150000), func(c *ev.Case) {
 		r := c.R
-		g := &mgen{r: r, budget: 14, inSub: map[int]bool{}, subRootUse: map[int]bool{}}
 		p := &mprog{Cfg: Cfg{CaseSensitive: r.Bool(), Strict: r.Bool(), Unescape: r.Chance(1, 4), CustomCtx: r.Chance(1, 4)}}
+		genProgOptions(r, p, true)
+		g := newMgen(r, p, 14)
 		p.Root = g.body(0, false)
 		if g.mounts == 0 {
-			m := mstmt{Kind: "mount", Prefix: gen.Pick(r, mountPrefixes)}
+			m := mstmt{Kind: "mount", Prefix: gen.Pick(r, mountPrefixes), Sub: g.subCfg()}
 			m.Body = g.body(2, true)
 			p.Root = append(p.Root, m)
 		}
 		nreq := e.N(40, 60)
-		segs := []string{"", "/a", "/ab", "/abc", "/x", "/api", "/Api", "/a/b", "/v1", "/abc/d", "/", "/a:b", "/x*", "/ab+"}
+		segs := []string{"", "/a", "/ab", "/abc", "/x", "/api", "/Api", "/a/b", "/v1", "/abc/d", "/", "/a:b", "/x*", "/ab+", "/Ab", "/AB", "/x/Y"}
 		var reqs [][2]string
 		for i := 0; i < nreq; i++ {
 			var sb strings.Builder
@@ -468,18 +723,27 @@ func runMount(e *ev.Env) {
 			if r.Chance(1, 6) {
 				path = mutatePath(r, path)
 			}
-			m := gen.Pick(r, []string{"GET", "POST", "GET", "PUT"})
-			reqs = append(reqs, [2]string{m, path})
+			reqs = append(reqs, [2]string{genReqMethod(r, p), path})
 		}
 		checkMounted(e, c, p, g, reqs)
 		shape := mountShape(p)
+		if strings.Contains(shape, "sub-app-with-other-routing-options") {
+			e.Stat("trees_with_sub_app_of_other_routing_options", 1)
+		}
+		if p.Cons == "sub" {
+			e.Stat("trees_with_constraints_registered_on_sub_apps_only", 1)
+		}
+		if strings.HasPrefix(groupsClass(p), "prefix-slice-variable") {
+			e.Stat("trees_passing_one_prefix_slice_to_several_use_calls", 1)
+		}
 		e.Sample("tree", map[string]any{"cfg": p.Cfg.String(), "shape": shape, "root_statements": len(p.Root)})
 	})
 
 	e.Cases("groups", e.N(2000, 100000), func(c *ev.Case) {
 		r := c.R
-		g := &mgen{r: r, budget: 12, inSub: map[int]bool{}, subRootUse: map[int]bool{}}
 		p := &mprog{Cfg: Cfg{CaseSensitive: r.Bool(), Strict: r.Bool(), CustomCtx: r.Chance(1, 4)}}
+		genProgOptions(r, p, false)
+		g := newMgen(r, p, 12)
 		// groups only, prefixes without trailing slash, paths with leading slash
 		var body func(depth int) []mstmt
 		body = func(depth int) []mstmt {
@@ -492,7 +756,7 @@ func runMount(e *ev.Env) {
 				}
 				s := g.route(depth > 0)
 				// paths may be spelled without their leading slash ("users" under "/api/")
-				if depth > 0 && len(s.Path) > 1 && r.Chance(1, 4) {
+				if depth > 0 && len(s.Path) > 1 && s.Kind != "usemulti" && r.Chance(1, 4) {
 					s.Path = s.Path[1:]
 				}
 				out = append(out, s)
@@ -508,14 +772,18 @@ func runMount(e *ev.Env) {
 		if e.Guard(c, "mount|build-spelled", p, func() { dB = drive.NewDirect(buildSpelled(p, trB)) }) {
 			return
 		}
-		segs := []string{"", "/a", "/ab", "/abc", "/x", "/api", "/Api", "/a/b", "/v1", "/abc/d", "/"}
+		class := groupsClass(p)
+		if strings.HasPrefix(class, "prefix-slice-variable") {
+			e.Stat("groups_passing_one_prefix_slice_to_several_use_calls", 1)
+		}
+		segs := []string{"", "/a", "/ab", "/abc", "/x", "/api", "/Api", "/a/b", "/v1", "/abc/d", "/", "/Ab", "/AB"}
 		for i := 0; i < e.N(40, 60); i++ {
 			var sb strings.Builder
 			for j := 0; j < r.Range(1, 4); j++ {
 				sb.WriteString(gen.Pick(r, segs))
 			}
 			path := strings.ReplaceAll("/"+strings.TrimLeft(sb.String(), "/"), "//", "/")
-			m := gen.Pick(r, []string{"GET", "POST", "GET", "PUT"})
+			m := genReqMethod(r, p)
 			trA.recs, trB.recs = nil, nil
 			var ra, rb *drive.Resp
 			if e.Guard(c, "mount|dispatch-grouped", map[string]any{"program": p, "method": m, "path": path}, func() { ra = do(dA, m, path) }) {
@@ -528,18 +796,25 @@ func runMount(e *ev.Env) {
 			if subTrace(trA.recs, g.inSub) {
 				e.Nontrivial(c.ID, m, path)
 			}
+			if isExtraMethod(m) && len(trB.recs) > 0 {
+				e.Stat("groups_extra_method_requests_reaching_handlers", 1)
+			}
 			detail := func() map[string]any {
 				return map[string]any{"program": p, "method": m, "path": path,
 					"grouped": map[string]any{"trace": trA.recs, "status": ra.Status, "body": string(ra.Body)},
 					"spelled": map[string]any{"trace": trB.recs, "status": rb.Status, "body": string(rb.Body)}}
 			}
+			rclass := class
+			if isExtraMethod(m) {
+				rclass += "+request-with-configured-extra-method"
+			}
 			if ok, what := recsEqual(trA.recs, trB.recs); !ok {
-				e.Violation(c, "group-vs-fullpath|"+what+"-differs",
+				e.Violation(c, "group-vs-fullpath|"+what+"-differs|"+rclass,
 					fmt.Sprintf("%s %s: Group prefixes and spelled-out paths differ in %s", m, path, what), detail())
 				continue
 			}
 			if ra.Status != rb.Status || string(ra.Body) != string(rb.Body) {
-				e.Violation(c, "group-vs-fullpath|response-differs",
+				e.Violation(c, "group-vs-fullpath|response-differs|"+rclass,
 					fmt.Sprintf("%s %s: grouped %d %q, spelled-out %d %q", m, path, ra.Status, ra.Body, rb.Status, rb.Body), detail())
 			}
 		}
